@@ -44,7 +44,7 @@ VecApi == {
   E("inner", "base", << {4}, {4} >>),        E("qvmul", "base", << {4}, {3} >>),
   E("vvmul", "base", << {3}, {3} >>),        E("qpow", "base", << {4} >>),
   E("q2r", "base", << {4} >>),               E("slerp", "base", << {4}, {4} >>),
-  E("slerp(shortest)", "base", << {4}, {4} >>), E("qpow(-3)", "base", << {4} >>),
+  E("slerp(shortest)", "base", << {4}, {4} >>), E("slerp(s=0)", "base", << {4}, {4} >>), E("slerp(s=1)", "base", << {4}, {4} >>), E("qpow(-3)", "base", << {4} >>),
   E("trexp(theta=)", "base", << {6} >>),     E("trexp2(theta=)", "base", << {1, 3} >>),
   E("matrix", "base", << {4} >>),            E("dot", "base", << {4}, {3} >>),
   E("dotb", "base", << {4}, {3} >>),         E("angle", "base", << {4}, {4} >>),
@@ -89,6 +89,12 @@ MatApi == {"t2r", "r2t", "tr2rt", "rt2tr", "trinv", "trinv2", "trlog(R)", "trlog
            "SE3([T,T])", "SO3([R,R])", "SE3*points", "SO3*points", "SE2*points", "UnitQuaternion*points"}
 
 \* entries documented ":SymPy: supported" (C16) and the symbolic pose expressions built over them
+\* documented options of the SymPy-supported entries: angles in degrees (scalar, separate-scalar and packed forms) and
+\* the translation keyword of the homogeneous one-axis rotations (numbers with a symbolic angle, or symbols)
+SymOptions == {"rotx(deg)", "roty(deg)", "rotz(deg)", "trotx(deg)", "troty(deg)", "trotz(deg)",
+               "trotx(t=numbers)", "troty(t=numbers)", "trotz(t=numbers)", "trotx(t=)", "troty(t=)", "trotz(t=)",
+               "eul2r(deg)", "eul2tr(deg)", "eul2r([],deg)", "eul2tr((),deg)", "SO3.Rx(deg)", "SE3.Ry(deg)",
+               "SE3.Rx(t=numbers)", "SE3.Rz(t=)", "SO3.Eul(deg)", "SE3.Eul(deg)", "SO3.RPY(deg)", "SE3.RPY(deg)"}
 SymApi == {"norm([x,0,0])", "norm((0,y,0))", "norm(array[0,0,2z])", "normsq([x,0,0])",       \* vectors with ONE symbolic component
            "qpow(-3)", "qpow(-2)", "qpow(-1)", "qpow(0)", "qpow(3)",        \* integer powers of a symbolic quaternion
            "SE3(ndarray[x,y,z])", "SE3(ndarray column)", "SE3([x,y,z])",          \* vector call forms of the SE3 constructor
@@ -97,7 +103,7 @@ SymApi == {"norm([x,0,0])", "norm((0,y,0))", "norm(array[0,0,2z])", "normsq([x,0
            "tr2delta", "tr2jac", "skew", "vex", "skewa", "vexa", "det", "norm", "normsq", "cross", "qpow", "conj",
            "SO3.Rx", "SO3.Ry", "SO3.Rz", "SO3.Eul", "SO3.RPY", "SE3.Rx", "SE3.Ry", "SE3.Rz", "SE3.Tx", "SE3.Ty", "SE3.Tz",
            "SE3.Eul", "SE3.RPY", "SE3.Delta", "SE3(x,y,z)", "SE3.t", "SE3.R", "SE3.inv", "SE3.Ad", "SE3.jacob",
-           "Twist3.Rx", "Twist3.Ry", "Twist3.Rz"}
+           "Twist3.Rx", "Twist3.Ry", "Twist3.Rz"} \cup SymOptions
 SymExprs == {"SE3.Rx*SE3.Tx", "SE3.Rz*SE3.Ry*SE3.Rx", "(SE3.Rx*SE3.Ty).inv", "SE3.Rx*SE3.Tx*point", "SO3.Rx*SO3.Ry",
              "SO3.Rz.inv", "SO3.Rx*point", "SE3.Rx*SE3.Rx.inv", "SE3.Rz**2", "SE3.Tx/SE3.Rz"}
 SymModes == {"all-symbolic", "mixed", "mixed-number-first"}     \* which positions of a packed argument are plain numbers
@@ -188,9 +194,11 @@ SymMatCall(n, arg, mode) ==
 
 \* st: the type of the separate scalars - Python float / int, or NumPy scalars (what a loop over an array yields)
 ScalarTypes == {"float", "int", "numpy.float64", "numpy.int64", "numpy.float32", "numpy.int32"}
-ScalarCall(n, st) ==
+\* zs: which of the separate scalars are zero (a zero is a value like any other, not an omitted argument)
+ScalarZeros == {"none", "second", "second-third", "first", "third", "all"}
+ScalarCall(n, st, zs) ==
   /\ call.op = "none"
-  /\ call' = [op |-> "scalars", name |-> n, st |-> st]
+  /\ call' = [op |-> "scalars", name |-> n, st |-> st, zeros |-> zs]
   /\ expect' = "same-as-packed"
 
 Next ==
@@ -200,7 +208,7 @@ Next ==
   \/ \E n \in UnitOut : \E cfg \in UnitCfgs : \E o \in {"zyx", "xyz", "yxz"} : UnitCall(n, "out", cfg, o)
   \/ \E n \in UnitIn : \E u \in BadUnits : BadUnitCall(n, u)
   \/ \E n \in OrderIn : \E o \in GoodOrders \cup BadOrders : OrderCall(n, o)
-  \/ \E n \in ScalarForms : \E st \in ScalarTypes : ScalarCall(n, st)
+  \/ \E n \in ScalarForms : \E st \in ScalarTypes : \E zs \in ScalarZeros : ScalarCall(n, st, zs)
   \/ \E n \in MatApi : \E k \in MatKinds : MatCall(n, k)
   \/ \E n \in SymApi \cup SymExprs : \E mode \in SymModes : SymCall(n, mode)
   \/ \E n \in SymMatApi : \E a \in SymMatArgs : \E mode \in SymModes : SymMatCall(n, a, mode)
